@@ -206,10 +206,9 @@ def run_case(case):
             def hk(t, k=k):
                 return mf.h0[k] + np.real(a0) * mf.x[k] \
                     + np.cos(mf.w * t) * mf.y[k]
-            lk, gk = mf.lop[k], mf.gamma[k]
             tds = oqupy.TimeDependentSystem(
-                hk, gammas=[lambda t, gk=gk: gk],
-                lindblad_operators=[lambda t, lk=lk: lk])
+                hk, gammas=[mf.gamma_fn(k)],
+                lindblad_operators=[mf.lop_fn(k)])
             plain = oqupy.Tempo(tds, oqupy.Bath(opers[k], corrs[k]), params,
                                 rhos[k], start).compute(
                                     end, progress_type="silent")
@@ -301,10 +300,9 @@ def run_case(case):
                 if mf.td:
                     h = h + np.cos(mf.w * t) * mf.y[k]
                 return h
-            lk, gk = mf.lop[k], mf.gamma[k]
             tds = oqupy.TimeDependentSystem(
-                hk, gammas=[lambda t, gk=gk: gk],
-                lindblad_operators=[lambda t, lk=lk: lk])
+                hk, gammas=[mf.gamma_fn(k)],
+                lindblad_operators=[mf.lop_fn(k)])
             plain = oqupy.Tempo(tds, oqupy.Bath(opers[k], corrs[k]), params,
                                 rhos[k], start).compute(
                                     end, progress_type="silent")
